@@ -14,8 +14,11 @@ says whether the mode admits that class.  Every target declares a uniquely named
 of a denied location that reaches the result shows in schema.maps.elements.
 """
 import os
+import pickle
 import shutil
+import signal
 import tempfile
+import traceback
 import urllib.request
 import warnings
 
@@ -59,11 +62,15 @@ VERSIONS = {'1.0': XMLSchema10, '1.1': XMLSchema11}
 KINDS = ('path', 'fileurl', 'rel+base', 'fp+fileurl', 'fp+httpurl', 'text+base', 'http')
 REMOTE_KINDS = ('fp+httpurl', 'http')
 MECHS = ('include', 'import', 'import/location-loader', 'import/safe-loader', 'redefine', 'override', 'chain',
-         'hint-elem', 'hint-root', 'locations', 'map-dict', 'map-call')
+         'hint-elem', 'hint-root', 'locations', 'map-dict', 'map-call', 'locations-late', 'hint-xmlns')
+DOC_MECHS = ('hint-elem', 'locations-late', 'hint-xmlns')     # a document is validated after the schema is built
+FORKED_MECHS = ('hint-xmlns',)                                # may alter the shared meta-schema: run in a forked child
 INC_MECHS = ('include', 'redefine', 'override', 'hint-root', 'map-dict')      # target in the main namespace
 HOST = 'stub.test'
 RBASE = 'http://%s/sand' % HOST
-FILENAMES = ('inc.xsd', 'imp.xsd', 'main.xsd', 'doc.xml', 'chain.xsd', 'innocent.xsd')
+FILENAMES = ('inc.xsd', 'imp.xsd', 'main.xsd', 'doc.xml', 'chain.xsd', 'innocent.xsd', 'xml.xsd')
+XMLNS = 'http://www.w3.org/XML/1998/namespace'
+TARGETS = (('inc', 'urn:m'), ('imp', 'urn:t'), ('xml', XMLNS))     # file kind -> target namespace
 
 # The catalogue (the 14 of the design + 4 authority-less / made-up scheme URLs + 2 absolute '..' escapes) is the completed bound of both tiers; EXTRA is the next bound:
 # thorough takes all of it, quick the seed-selected residue slice.  {T} = fixture root, {F} = file name.
@@ -77,6 +84,10 @@ CATALOGUE = (
     'mem:{F}', 'mem:/dir/{F}', 'MEM:{F}', 'mem://host/{F}',
     # absolute spellings that start inside the base and leave it through '..' (string prefix = base)
     '{T}/sand/../other/{F}', 'file://{T}/sand/../sand_evil/{F}',
+    # dot segments percent-encoded twice: one decoding leaves the literal directory name '%2e%2e', a second one '..'
+    '%252e%252e/other/{F}', '%252E%252E/other/{F}', '%252e./other/{F}',
+    # a URN: not a file, resolvable only by the opener the application passes
+    'urn:c12:{F}', 'URN:c12:{F}',
 )
 EXTRA = (
     '{T}/sand/sub/{F}', 'file://{T}/sand/sub/{F}', '../sand/sub/{F}',
@@ -103,10 +114,10 @@ def spellings(tier, seed):
 # --- fixture ----------------------------------------------------------------------------------
 
 def target_xsd(ns, elem):
-    return ('<xs:schema xmlns:xs="%s" targetNamespace="%s" xmlns:q="%s" elementFormDefault="qualified">\n'
+    return ('<xs:schema xmlns:xs="%s" targetNamespace="%s" elementFormDefault="qualified">\n'
             '<xs:element name="%s" type="xs:string"/>\n'
             '<xs:simpleType name="st"><xs:restriction base="xs:string"/></xs:simpleType>\n'
-            '</xs:schema>\n' % (XSD, ns, ns, elem))
+            '</xs:schema>\n' % (XSD, ns, elem))
 
 
 def main_xsd(mech, loc):
@@ -138,8 +149,11 @@ def doc_xml(mech, loc):
     if mech == 'hint-root':
         return ('<m:root xmlns:m="urn:m" xmlns:xsi="%s" xsi:schemaLocation="urn:m %s"><m:box/></m:root>\n'
                 % (XSI, loc))
-    return ('<m:root xmlns:m="urn:m" xmlns:t="urn:t" xmlns:xsi="%s"><m:box xsi:schemaLocation="urn:t %s">'
-            '<t:probe/></m:box></m:root>\n' % (XSI, loc))
+    if mech == 'locations-late':                  # no hint: the wildcard of m:box meets an element of urn:t
+        return '<m:root xmlns:m="urn:m" xmlns:t="urn:t"><m:box><t:probe/></m:box></m:root>\n'
+    ns = XMLNS if mech == 'hint-xmlns' else 'urn:t'
+    return ('<m:root xmlns:m="urn:m" xmlns:t="urn:t" xmlns:xsi="%s"><m:box xsi:schemaLocation="%s %s">'
+            '<t:probe/></m:box></m:root>\n' % (XSI, ns, loc))
 
 
 class Tree:
@@ -155,7 +169,7 @@ class Tree:
         for tag, rel in self.LOCAL_DIRS:
             d = os.path.join(self.root, rel)
             os.makedirs(d)
-            for kind, ns in (('inc', 'urn:m'), ('imp', 'urn:t')):
+            for kind, ns in TARGETS:
                 name = 'l_%s_%s' % (tag, kind)
                 path = os.path.join(d, kind + '.xsd')
                 with open(path, 'w') as f:
@@ -163,16 +177,20 @@ class Tree:
                 self.owners[name] = ('local', path)
         self.opener, self.stub = audit_c12.make_opener()
         for d in self.REMOTE_DIRS:
-            for kind, ns in (('inc', 'urn:m'), ('imp', 'urn:t')):
+            for kind, ns in TARGETS:
                 for scheme in ('http', 'https', 'ftp'):
                     self.owners[self.rname(scheme, d, kind)] = ('remote', None)
                 self.stub.table['%s/%s.xsd' % (d, kind)] = \
                     (lambda scheme, d=d, kind=kind, ns=ns: target_xsd(ns, self.rname(scheme, d, kind)).encode())
         for d in self.MEM_DIRS:                             # mem:inc.xsd, mem:/dir/inc.xsd, mem://host/inc.xsd
-            for kind, ns in (('inc', 'urn:m'), ('imp', 'urn:t')):
+            for kind, ns in TARGETS:
                 self.owners[self.rname('mem', d, kind)] = ('remote', None)
                 self.stub.table['%s/%s.xsd' % (d.rstrip('/'), kind) if d else kind + '.xsd'] = \
                     (lambda scheme, d=d, kind=kind, ns=ns: target_xsd(ns, self.rname(scheme, d, kind)).encode())
+        for kind, ns in TARGETS:                                      # urn:c12:inc.xsd (path 'c12:inc.xsd')
+            self.owners['r_urn_c12_' + kind] = ('remote', None)
+            self.stub.table['c12:%s.xsd' % kind] = \
+                (lambda scheme, kind=kind, ns=ns: target_xsd(ns, 'r_urn_c12_' + kind).encode())
         self.remote_text = {}
         for name in FILENAMES[2:5]:
             self.stub.table['/sand/' + name] = lambda scheme, name=name: self.remote_text[name]
@@ -239,11 +257,48 @@ def run_case(tree, version, allow, kind, mech, spelling):
     """Returns (list of (key, what), info)."""
     with warnings.catch_warnings():
         warnings.simplefilter('ignore')
+        if mech in FORKED_MECHS:
+            return _forked(_run_case, tree, version, allow, kind, mech, spelling)
         return _run_case(tree, version, allow, kind, mech, spelling)
 
 
+def _forked(func, *args):
+    """Runs func(*args) in a forked child and returns its (picklable) result, so that whatever the case does to
+    process-wide state of the library (the shared meta-schema maps) dies with the child."""
+    rfd, wfd = os.pipe()
+    pid = os.fork()
+    if pid == 0:
+        status = 1
+        try:
+            os.close(rfd)
+            try:
+                payload = pickle.dumps(('ok', func(*args)))
+            except BaseException:                                   # noqa
+                payload = pickle.dumps(('error', traceback.format_exc()))
+            with os.fdopen(wfd, 'wb') as w:
+                w.write(payload)
+            status = 0
+        finally:
+            os._exit(status)
+    os.close(wfd)
+    try:
+        with os.fdopen(rfd, 'rb') as r:
+            data = r.read()
+    except BaseException:
+        os.kill(pid, signal.SIGKILL)
+        raise
+    finally:
+        os.waitpid(pid, 0)
+    if not data:
+        raise RuntimeError('forked case died without an answer: %r' % (args[1:],))
+    tag, value = pickle.loads(data)
+    if tag == 'error':
+        raise RuntimeError('forked case failed: ' + value)
+    return value
+
+
 def _run_case(tree, version, allow, kind, mech, spelling):
-    fname = 'inc.xsd' if mech in INC_MECHS else 'imp.xsd'
+    fname = 'xml.xsd' if mech == 'hint-xmlns' else 'inc.xsd' if mech in INC_MECHS else 'imp.xsd'
     loc = spelling.replace('{T}', tree.root).replace('{F}', fname)
     written = 'innocent.xsd' if mech in ('map-dict', 'map-call') else loc
     remote_main = kind in REMOTE_KINDS
@@ -271,7 +326,7 @@ def _run_case(tree, version, allow, kind, mech, spelling):
     mapper = mapper_for(tree, mech, loc)
     if mapper is not None:
         kwargs['uri_mapper'] = mapper
-    if mech == 'locations':
+    if mech in ('locations', 'locations-late'):
         kwargs['locations'] = {'urn:t': loc}
     if '/' in mech:
         kwargs['loader_class'] = LocationSchemaLoader if mech.endswith('location-loader') else SafeSchemaLoader
@@ -298,17 +353,19 @@ def _run_case(tree, version, allow, kind, mech, spelling):
                 except (XMLSchemaException, OSError) as e:
                     raised = e
         else:
-            # hint-elem: the instance document is the main source; its schema is text that cannot be denied
-            skind = kind if mech != 'hint-elem' else 'text+base'
+            # hint-elem / hint-xmlns: the instance is the main source; its schema is text that cannot be denied.
+            # locations-late: schema and instance are both of the kind
+            hinted = mech in ('hint-elem', 'hint-xmlns')
+            skind = kind if not hinted else 'text+base'
             source, base_url, fp = make_source(tree, skind, 'main.xsd', main_xsd(mech, written))
-            if mech == 'hint-elem' and kind in REMOTE_KINDS:
+            if hinted and kind in REMOTE_KINDS:
                 base_url = RBASE
             fps.append(fp)
             if mech == 'chain':
                 fps.append(make_source(tree, 'path' if kind not in REMOTE_KINDS else 'http', 'chain.xsd',
                                        chain_xsd(written))[2])
             dsource = None
-            if mech == 'hint-elem':
+            if mech in DOC_MECHS:
                 dsource, _b, fp = make_source(tree, kind, 'doc.xml', doc_xml(mech, written))
                 fps.append(fp)
             with audit_c12.recording() as log:
@@ -318,7 +375,7 @@ def _run_case(tree, version, allow, kind, mech, spelling):
                     schema = cls(source, base_url=base_url, **kwargs)
                     if dsource is not None:
                         info['calls'] += 1
-                        list(schema.iter_errors(dsource, use_location_hints=True))
+                        list(schema.iter_errors(dsource, use_location_hints=hinted))
                 except (XMLSchemaException, OSError) as e:
                     raised = e
     finally:
@@ -360,7 +417,10 @@ def _run_case(tree, version, allow, kind, mech, spelling):
     # 2. content of a denied location must not reach the result
     loaded = set()
     if schema is not None:
-        for qname in list(schema.maps.elements):
+        qnames = set(schema.maps.elements)
+        if schema.meta_schema is not None:
+            qnames.update(schema.meta_schema.maps.elements)         # shared by every schema of the process
+        for qname in sorted(qnames):
             local = qname.split('}')[-1]
             owner = tree.owners.get(local)
             if owner is None:
@@ -369,7 +429,7 @@ def _run_case(tree, version, allow, kind, mech, spelling):
             ocls = 'remote' if owner[0] == 'remote' else access.path_class(owner[1], sandbox_base)
             if not access.allowed(ocls, allow):
                 disc('influence:%s' % local,
-                     "allow=%r but element %r, declared only in a location of class '%s', is in schema.maps.elements"
+                     "allow=%r but element %r, declared only in a location of class '%s', is in the element maps of the result"
                      % (allow, local, ocls))
 
     # 3. a denied main source / a denied target is reported
